@@ -1,3 +1,731 @@
 package main
 
-func runMachine(n int, out string, replay string) {}
+// Sub-command "machine": drives the REAL supOFO / supARFO / supSOFO state machines through
+// act/verif_export.go. The harness plays Supervisor.handleAction and the environment itself
+// (fake pids, children that exit when told to or spontaneously, spawn failures) and records,
+// after every machine call, the answer (action / error / panic) and the full machine state, and
+// after every environment operation a snapshot (state, live children, outstanding exit signals,
+// supervisor liveness and termination reason). The Coq side (Sup/MachineCases.v) replays the same
+// operations in the model and evaluates the property monitors on the observations.
+
+import (
+	"encoding/json"
+	"errors"
+	"fmt"
+	"math/rand"
+	"os"
+	"sort"
+	"strings"
+
+	"ergo.services/ergo/act"
+	"ergo.services/ergo/gen"
+	"verifharness/util"
+)
+
+type mOp struct {
+	K    string `json:"k"`              // exit | exitsig | foreign | start | add | enable | disable | shift
+	A    int    `json:"a,omitempty"`    // index into the live pids / outstanding pids / spec names
+	R    int    `json:"r,omitempty"`    // reason code
+	Fail int    `json:"fail,omitempty"` // which spawn of the triggered handleAction loop fails (0 none)
+	D    int64  `json:"d,omitempty"`    // shift in ms
+	Sig  bool   `json:"sig,omitempty"`
+}
+
+type mCase struct {
+	Kind      string   `json:"kind"`     // ofo afo rfo sofo
+	Strategy  int      `json:"strategy"` // 0 transient 1 temporary 2 permanent
+	Keep      bool     `json:"keeporder"`
+	NoAuto    bool     `json:"disable_auto_shutdown"`
+	Intensity int      `json:"intensity"`
+	Period    int      `json:"period"`
+	Sig       []bool   `json:"significant"` // one per initial child c1..cn
+	InitFail  int      `json:"init_fail,omitempty"`
+	Ops       []mOp    `json:"ops"`
+	Stream    string   `json:"stream"`
+	Tags      []string `json:"tags,omitempty"`
+}
+
+// ---- reasons, names, pids ---------------------------------------------------------------------
+
+var errSpawn = errors.New("spawn failed")
+var abnormal = map[int]error{}
+
+func reasonOf(code int) error {
+	switch code {
+	case 0:
+		return nil
+	case 1:
+		return gen.TerminateReasonNormal
+	case 2:
+		return gen.TerminateReasonShutdown
+	case 3:
+		return gen.TerminateReasonKill
+	case 4:
+		return gen.TerminateReasonPanic
+	case 5:
+		return act.ErrSupervisorRestartsExceeded
+	case 6:
+		return errSpawn
+	}
+	if e, ok := abnormal[code]; ok {
+		return e
+	}
+	e := fmt.Errorf("abnormal-%d", code)
+	abnormal[code] = e
+	return e
+}
+
+func codeOf(e error) int {
+	switch e {
+	case nil:
+		return 0
+	case gen.TerminateReasonNormal:
+		return 1
+	case gen.TerminateReasonShutdown:
+		return 2
+	case gen.TerminateReasonKill:
+		return 3
+	case gen.TerminateReasonPanic:
+		return 4
+	case act.ErrSupervisorRestartsExceeded:
+		return 5
+	case errSpawn:
+		return 6
+	}
+	for c, x := range abnormal {
+		if x == e {
+			return c
+		}
+	}
+	return 9999 // an error value the harness never handed in
+}
+
+func errCode(e error) int {
+	switch e {
+	case act.ErrSupervisorStrategyActive:
+		return 1
+	case act.ErrSupervisorChildDuplicate:
+		return 2
+	case act.ErrSupervisorChildDisabled:
+		return 3
+	case act.ErrSupervisorChildRunning:
+		return 4
+	case act.ErrSupervisorChildUnknown:
+		return 5
+	}
+	if e != nil && e.Error() == "shutting down" {
+		return 7
+	}
+	return 6
+}
+
+const selfName = 999
+const selfPid = 1
+
+func atomOf(n int) gen.Atom {
+	if n == 0 {
+		return ""
+	}
+	if n == selfName {
+		return "sup"
+	}
+	return gen.Atom(fmt.Sprintf("c%d", n))
+}
+
+func nameOf(a gen.Atom) int {
+	if a == "" {
+		return 0
+	}
+	if a == "sup" {
+		return selfName
+	}
+	var n int
+	fmt.Sscanf(string(a), "c%d", &n)
+	return n
+}
+
+func pidOf(p int64) gen.PID {
+	if p == 0 {
+		return gen.PID{}
+	}
+	return gen.PID{Node: "verif@localhost", ID: uint64(p), Creation: 1}
+}
+func pidNum(p gen.PID) int64 { return int64(p.ID) }
+
+func dummyFactory() gen.ProcessBehavior { return nil }
+
+// ---- rendering into Coq terms -------------------------------------------------------------------
+
+func coqState(st act.VerifSupState) string {
+	var specs []string
+	sp := append([]act.VerifChild{}, st.Spec...)
+	sort.Slice(sp, func(i, j int) bool { return sp[i].I < sp[j].I })
+	for _, c := range sp {
+		specs = append(specs, fmt.Sprintf("mk_cspec %d %d %s %s %d", nameOf(c.Name), pidNum(c.PID), util.B(c.Disabled), util.B(c.Significant), c.I))
+	}
+	var wait []int64
+	for _, p := range st.Wait {
+		wait = append(wait, pidNum(p))
+	}
+	sort.Slice(wait, func(i, j int) bool { return wait[i] < wait[j] })
+	pp := append([]act.VerifChild{}, st.Pids...)
+	sort.Slice(pp, func(i, j int) bool { return pp[i].PID.ID < pp[j].PID.ID })
+	var pids []string
+	for _, c := range pp {
+		pids = append(pids, fmt.Sprintf("(%d, %d)", pidNum(c.PID), nameOf(c.Name)))
+	}
+	shut := st.Shutdown
+	if st.Kind == "arfo" {
+		shut = false // the export derives it from mode == 3; the model keeps the mode only
+	}
+	return fmt.Sprintf("(mk_state %s %d %s %d %s %d %s %s)", util.List(specs), st.Mode, util.ZList(wait), st.RestartI,
+		util.B(shut), codeOf(st.ShutdownReason), util.ZList(st.Restarts), util.List(pids))
+}
+
+func (d *drv) coqResult(a act.VerifAction, err error, panicked string) string {
+	if panicked != "" {
+		return "RPanic"
+	}
+	if err != nil {
+		return fmt.Sprintf("(RErr %d)", errCode(err))
+	}
+	switch a.Do {
+	case 0:
+		return "(RAct DoNothing)"
+	case 1:
+		// the model's action carries the spec; only name and index are compared
+		return fmt.Sprintf("(RAct (StartChild (mk_cspec %d 0 false false %d)))", nameOf(a.SpecName), a.SpecI)
+	case 2:
+		return fmt.Sprintf("(RAct (TerminateChildren %s %d))", util.ZList(d.pidList(a.Terminate)), codeOf(a.Reason))
+	case 4:
+		return fmt.Sprintf("(RAct (Terminate %d))", codeOf(a.Reason))
+	}
+	return fmt.Sprintf("(RErr %d)", 900+a.Do)
+}
+
+// ---- the driver: Supervisor.handleAction + ProcessRun's exit branch ------------------------------
+
+type drv struct {
+	c        *mCase
+	v        *act.VerifSup
+	children map[int64]int // s.children: pid -> spec name
+	sig      map[int64]int // exit signals sent to live pids: pid -> reason
+	next     int64
+	nforeign int64
+	alive    bool
+	reason   int
+	trace    []string
+	events   []string
+	snaps    []string
+	ops      []string // resolved ops as Coq terms
+	stats    map[string]int
+	nspecs   int
+}
+
+func (d *drv) pidList(l []gen.PID) []int64 {
+	var out []int64
+	for _, p := range l {
+		out = append(out, pidNum(p))
+	}
+	if d.c.Kind == "sofo" {
+		// built from a Go map iteration: order is not defined
+		sort.Slice(out, func(i, j int) bool { return out[i] < out[j] })
+	}
+	return out
+}
+
+func (d *drv) log(call string, a act.VerifAction, err error, panicked string) {
+	d.trace = append(d.trace, fmt.Sprintf("mk_obs (%s) %s %s", call, d.coqResult(a, err, panicked), coqState(d.v.State())))
+	if panicked != "" {
+		d.stats["panic"]++
+	}
+}
+
+func (d *drv) die(r int) {
+	d.alive = false
+	d.reason = r
+	d.events = append(d.events, fmt.Sprintf("EvTerminated %d", r))
+}
+
+// handleAction; returns 0 nil, 1 error (reason), 2 panic
+func (d *drv) handleAction(a act.VerifAction, err error, panicked string, fail int) (int, int) {
+	for {
+		if panicked != "" {
+			return 2, 0
+		}
+		if err != nil {
+			return 1, 100 + errCode(err)
+		}
+		switch a.Do {
+		case 0:
+			return 0, 0
+		case 4:
+			return 1, codeOf(a.Reason)
+		case 2:
+			if len(a.Terminate) == 0 {
+				if a.Reason == nil {
+					return 0, 0
+				}
+				return 1, codeOf(a.Reason)
+			}
+			for _, p := range d.pidList(a.Terminate) {
+				d.events = append(d.events, fmt.Sprintf("EvSendExit %d %d", p, codeOf(a.Reason)))
+				if _, live := d.children[p]; live {
+					if _, already := d.sig[p]; !already {
+						d.sig[p] = codeOf(a.Reason)
+					}
+				}
+			}
+			return 0, 0
+		case 1:
+			if fail == 1 {
+				d.events = append(d.events, fmt.Sprintf("EvSpawnFail %d", nameOf(a.SpecName)))
+				d.stats["spawn-fail"]++
+				return 1, 6
+			}
+			fail--
+			if fail < 0 {
+				fail = 0
+			}
+			pid := d.next
+			d.next++
+			name := nameOf(a.SpecName)
+			d.children[pid] = name
+			d.events = append(d.events, fmt.Sprintf("EvSpawn %d %d", pid, name))
+			d.stats["spawn"]++
+			start := a
+			var p2 string
+			a, p2 = d.v.ChildStarted(start, pidOf(pid))
+			err = nil
+			panicked = p2
+			d.log(fmt.Sprintf("CStarted %d %d %d", start.SpecI, name, pid), a, nil, p2)
+		default:
+			return 2, 0
+		}
+	}
+}
+
+// what ProcessRun does with the outcome for an exit message
+func (d *drv) afterRun(h, r int, now int64) {
+	switch h {
+	case 0:
+	case 1:
+		d.die(r)
+	case 2:
+		a, p := d.v.ChildTerminated(atomOf(selfName), pidOf(selfPid), gen.TerminateReasonPanic)
+		d.log(fmt.Sprintf("CTerminated %d %d %d %s", selfName, selfPid, 4, util.Z(now)), a, nil, p)
+		h2, r2 := d.handleAction(a, nil, p, 0)
+		switch h2 {
+		case 1:
+			d.die(r2)
+		case 2:
+			d.die(4)
+		}
+	}
+}
+
+func (d *drv) afterCall(h, r int) {
+	if h == 2 {
+		d.afterRun(2, 0, 0)
+	}
+}
+
+func sortedKeys(m map[int64]int) []int64 {
+	var out []int64
+	for k := range m {
+		out = append(out, k)
+	}
+	sort.Slice(out, func(i, j int) bool { return out[i] < out[j] })
+	return out
+}
+
+func (d *drv) snap() {
+	var ch []string
+	for _, p := range sortedKeys(d.children) {
+		ch = append(ch, fmt.Sprintf("(%d, %d)", p, d.children[p]))
+	}
+	d.snaps = append(d.snaps, fmt.Sprintf("mk_snap %s %s %s %s %d", coqState(d.v.State()), util.List(ch),
+		util.ZList(sortedKeys(d.sig)), util.B(d.alive), d.reason))
+}
+
+func lastNow(before, after []int64) int64 {
+	same := len(before) == len(after)
+	if same {
+		for i := range before {
+			if before[i] != after[i] {
+				same = false
+			}
+		}
+	}
+	if same || len(after) == 0 {
+		return 0
+	}
+	return after[len(after)-1]
+}
+
+func (d *drv) exit(pid int64, reason int, fail int) {
+	name, found := d.children[pid]
+	if found {
+		delete(d.children, pid)
+		delete(d.sig, pid)
+	}
+	before := d.v.State().Restarts
+	a, p := d.v.ChildTerminated(atomOf(name), pidOf(pid), reasonOf(reason))
+	now := lastNow(before, d.v.State().Restarts)
+	d.ops = append(d.ops, fmt.Sprintf("OExit %d %d %s %d", pid, reason, util.Z(now), fail))
+	d.log(fmt.Sprintf("CTerminated %d %d %d %s", name, pid, reason, util.Z(now)), a, nil, p)
+	h, r := d.handleAction(a, nil, p, fail)
+	d.afterRun(h, r, now)
+}
+
+func (d *drv) specByIndex(a int) int {
+	// names c1..c(nspecs) exist; one more index is an unknown name
+	return 1 + a%(d.nspecs+1)
+}
+
+func (d *drv) apply(o mOp) {
+	if !d.alive {
+		return
+	}
+	switch o.K {
+	case "exit", "exitsig":
+		var pool []int64
+		if o.K == "exit" {
+			pool = sortedKeys(d.children)
+		} else {
+			pool = sortedKeys(d.sig)
+		}
+		if len(pool) == 0 {
+			return
+		}
+		pid := pool[o.A%len(pool)]
+		r := o.R
+		if o.K == "exitsig" {
+			r = d.sig[pid] // a child told to stop terminates with the reason of the exit signal
+		}
+		if _, signalled := d.sig[pid]; signalled {
+			d.stats["exit-signalled"]++
+		} else {
+			d.stats["exit-spontaneous"]++
+		}
+		d.exit(pid, r, o.Fail)
+	case "foreign":
+		d.nforeign++
+		d.stats["exit-foreign"]++
+		d.exit(5000+d.nforeign, o.R, o.Fail)
+	case "start":
+		n := d.specByIndex(o.A)
+		a, err, p := d.v.ChildSpec(atomOf(n))
+		d.ops = append(d.ops, fmt.Sprintf("OStartChild %d %d", n, o.Fail))
+		d.log(fmt.Sprintf("CSpec %d", n), a, err, p)
+		d.afterCall(d.handleAction(a, err, p, o.Fail))
+		d.stats["op-start"]++
+	case "add":
+		n := d.nspecs + 1
+		if o.A%5 == 0 {
+			n = d.specByIndex(o.A / 5) // mostly a duplicate
+		}
+		a, err, p := d.v.ChildAddSpec(act.SupervisorChildSpec{Name: atomOf(n), Significant: o.Sig, Factory: dummyFactory})
+		if err == nil && p == "" {
+			d.nspecs++
+		}
+		d.ops = append(d.ops, fmt.Sprintf("OAddChild %d %s %d", n, util.B(o.Sig), o.Fail))
+		d.log(fmt.Sprintf("CAdd %d %s", n, util.B(o.Sig)), a, err, p)
+		d.afterCall(d.handleAction(a, err, p, o.Fail))
+		d.stats["op-add"]++
+	case "enable":
+		n := d.specByIndex(o.A)
+		a, err, p := d.v.ChildEnable(atomOf(n))
+		d.ops = append(d.ops, fmt.Sprintf("OEnableChild %d %d", n, o.Fail))
+		d.log(fmt.Sprintf("CEnable %d", n), a, err, p)
+		d.afterCall(d.handleAction(a, err, p, o.Fail))
+		d.stats["op-enable"]++
+	case "disable":
+		n := d.specByIndex(o.A)
+		a, err, p := d.v.ChildDisable(atomOf(n))
+		d.ops = append(d.ops, fmt.Sprintf("ODisableChild %d", n))
+		d.log(fmt.Sprintf("CDisable %d", n), a, err, p)
+		d.afterCall(d.handleAction(a, err, p, 0))
+		d.stats["op-disable"]++
+	case "shift":
+		d.v.ShiftRestarts(o.D)
+		d.ops = append(d.ops, fmt.Sprintf("OShift %s", util.Z(o.D)))
+		d.log(fmt.Sprintf("CShift %s", util.Z(o.D)), act.VerifAction{}, nil, "")
+		d.stats["op-shift"]++
+	default:
+		return
+	}
+	d.snap()
+}
+
+func supType(kind string) act.SupervisorType {
+	switch kind {
+	case "ofo":
+		return act.SupervisorTypeOneForOne
+	case "afo":
+		return act.SupervisorTypeAllForOne
+	case "rfo":
+		return act.SupervisorTypeRestForOne
+	}
+	return act.SupervisorTypeSimpleOneForOne
+}
+
+func execMachineCase(c *mCase, stats map[string]int) string {
+	d := &drv{c: c, v: act.VerifNewSup(supType(c.Kind)), children: map[int64]int{}, sig: map[int64]int{},
+		next: 1001, alive: true, stats: stats, nspecs: len(c.Sig)}
+	spec := act.SupervisorSpec{Type: supType(c.Kind), DisableAutoShutdown: c.NoAuto}
+	spec.Restart = act.SupervisorRestart{Strategy: act.SupervisorStrategy(c.Strategy), Intensity: uint16(c.Intensity),
+		Period: uint16(c.Period), KeepOrder: c.Keep}
+	var ch []string
+	for i, sg := range c.Sig {
+		spec.Children = append(spec.Children, act.SupervisorChildSpec{Name: atomOf(i + 1), Significant: sg, Factory: dummyFactory})
+		ch = append(ch, fmt.Sprintf("(%d, %s)", i+1, util.B(sg)))
+	}
+	a, err, p := d.v.Init(spec)
+	d.log("CInit", a, err, p)
+	h, r := d.handleAction(a, err, p, c.InitFail)
+	switch h {
+	case 1:
+		d.die(r)
+	case 2:
+		d.die(4)
+	}
+	d.snap()
+	for _, o := range c.Ops {
+		d.apply(o)
+	}
+	// drain: let every child that was told to stop terminate (with the reason it was given), until
+	// nothing is outstanding, so that every case ends in a quiescent state
+	for guard := 0; d.alive && len(d.sig) > 0 && guard < 200; guard++ {
+		d.apply(mOp{K: "exitsig", A: guard})
+	}
+	stats["ops"] += len(d.ops)
+	stats["calls"] += len(d.trace)
+	if d.alive {
+		stats["end:alive"]++
+	} else {
+		stats[fmt.Sprintf("end:dead-reason-%d", d.reason)]++
+	}
+	kinds := map[string]string{"ofo": "OFO", "afo": "AFO", "rfo": "RFO", "sofo": "SOFO"}
+	strat := []string{"Transient", "Temporary", "Permanent"}[c.Strategy]
+	cfg := fmt.Sprintf("(mk_config %s %s %s %s %d %d)", kinds[c.Kind], strat, util.B(c.Keep), util.B(!c.NoAuto), c.Intensity, c.Period)
+	return fmt.Sprintf("mk_mcase %s %s %d %s %s %s %s", cfg, util.List(ch), c.InitFail, util.List(d.ops),
+		util.List(d.trace), util.List(d.events), util.List(d.snaps))
+}
+
+// ---- generators ---------------------------------------------------------------------------------
+
+var kindsAll = []string{"ofo", "afo", "rfo", "sofo"}
+
+func genConfig(r *rand.Rand, c *mCase) {
+	c.Kind = kindsAll[r.Intn(4)]
+	c.Strategy = r.Intn(3)
+	c.Keep = r.Intn(2) == 0
+	c.NoAuto = r.Intn(2) == 0
+	c.Intensity = []int{1, 2, 3, 3, 5, 0}[r.Intn(6)]
+	c.Period = []int{1, 2, 5}[r.Intn(3)]
+	n := 1 + r.Intn(4)
+	for i := 0; i < n; i++ {
+		c.Sig = append(c.Sig, r.Intn(4) == 0)
+	}
+}
+
+func genReason(r *rand.Rand) int {
+	return []int{1, 2, 3, 4, 10, 10, 11, 12}[r.Intn(8)]
+}
+
+func genOps(r *rand.Rand, c *mCase, n int, mgmt bool, failures bool) {
+	for i := 0; i < n; i++ {
+		var o mOp
+		x := r.Intn(100)
+		switch {
+		case x < 40:
+			o = mOp{K: "exit", A: r.Intn(16), R: genReason(r)}
+		case x < 62:
+			o = mOp{K: "exitsig", A: r.Intn(16)}
+		case x < 65:
+			o = mOp{K: "foreign", R: genReason(r)}
+		case x < 75:
+			o = mOp{K: "shift", D: []int64{1, 500, 999, 1000, 1001, 2500, 6000}[r.Intn(7)]}
+		default:
+			if !mgmt {
+				o = mOp{K: "exit", A: r.Intn(16), R: genReason(r)}
+				break
+			}
+			switch r.Intn(4) {
+			case 0:
+				o = mOp{K: "start", A: r.Intn(8)}
+			case 1:
+				o = mOp{K: "add", A: r.Intn(40), Sig: r.Intn(4) == 0}
+			case 2:
+				o = mOp{K: "enable", A: r.Intn(8)}
+			default:
+				o = mOp{K: "disable", A: r.Intn(8)}
+			}
+		}
+		if failures && r.Intn(25) == 0 {
+			o.Fail = 1 + r.Intn(3)
+		}
+		c.Ops = append(c.Ops, o)
+	}
+}
+
+func genMachineCase(r *rand.Rand, i int) *mCase {
+	c := &mCase{}
+	genConfig(r, c)
+	switch i % 4 {
+	case 0:
+		c.Stream = "exits-only"
+		genOps(r, c, 4+r.Intn(14), false, false)
+	case 1:
+		c.Stream = "mgmt"
+		genOps(r, c, 4+r.Intn(18), true, false)
+	case 2:
+		c.Stream = "mgmt+spawn-failures"
+		genOps(r, c, 4+r.Intn(18), true, true)
+		if r.Intn(10) == 0 {
+			c.InitFail = 1 + r.Intn(4)
+		}
+	default:
+		// failure bursts: many abnormal exits in a row, to reach the intensity limit
+		c.Stream = "bursts"
+		c.Strategy = []int{0, 2}[r.Intn(2)]
+		n := 4 + r.Intn(12)
+		for j := 0; j < n; j++ {
+			if r.Intn(4) == 0 {
+				c.Ops = append(c.Ops, mOp{K: "exitsig", A: r.Intn(8)})
+			} else if r.Intn(8) == 0 {
+				c.Ops = append(c.Ops, mOp{K: "shift", D: []int64{500, 1000, 1001, 5001}[r.Intn(4)]})
+			} else {
+				c.Ops = append(c.Ops, mOp{K: "exit", A: r.Intn(8), R: 10 + r.Intn(2)})
+			}
+		}
+	}
+	if c.Kind == "sofo" {
+		// SOFO starts nothing by itself: begin with a few StartChild calls
+		var pre []mOp
+		for j := 0; j < 1+r.Intn(4); j++ {
+			pre = append(pre, mOp{K: "start", A: r.Intn(len(c.Sig))})
+		}
+		c.Ops = append(pre, c.Ops...)
+	}
+	return c
+}
+
+// exhaustive small scope: every configuration (type x strategy x keeporder x auto-shutdown x
+// significant pattern, 1..nmax children) x every sequence of up to depth operations drawn from
+// {exit of the j-th live child with normal / abnormal reason, exit of the j-th signalled child}
+func exhaustiveCases(nmax, depth int, limit int, r *rand.Rand) []*mCase {
+	var alphabet []mOp
+	for j := 0; j < nmax; j++ {
+		alphabet = append(alphabet, mOp{K: "exit", A: j, R: 1}, mOp{K: "exit", A: j, R: 10})
+	}
+	alphabet = append(alphabet, mOp{K: "exitsig", A: 0}, mOp{K: "exitsig", A: 1})
+	var seqs [][]mOp
+	var rec func(cur []mOp)
+	rec = func(cur []mOp) {
+		if len(cur) == depth {
+			seqs = append(seqs, append([]mOp{}, cur...))
+			return
+		}
+		for _, o := range alphabet {
+			rec(append(cur, o))
+		}
+	}
+	rec(nil)
+	var out []*mCase
+	for _, kind := range []string{"ofo", "afo", "rfo"} {
+		for strat := 0; strat < 3; strat++ {
+			for keep := 0; keep < 2; keep++ {
+				if kind == "ofo" && keep == 1 {
+					continue
+				}
+				for noauto := 0; noauto < 2; noauto++ {
+					for n := 1; n <= nmax; n++ {
+						for sigmask := 0; sigmask < (1 << n); sigmask++ {
+							for _, s := range seqs {
+								c := &mCase{Kind: kind, Strategy: strat, Keep: keep == 1, NoAuto: noauto == 1, Intensity: 2, Period: 5, Stream: "exhaustive"}
+								for i := 0; i < n; i++ {
+									c.Sig = append(c.Sig, sigmask&(1<<i) != 0)
+								}
+								c.Ops = s
+								out = append(out, c)
+							}
+						}
+					}
+				}
+			}
+		}
+	}
+	if limit > 0 && len(out) > limit {
+		// deterministic thinning by the seeded generator
+		r.Shuffle(len(out), func(i, j int) { out[i], out[j] = out[j], out[i] })
+		out = out[:limit]
+	}
+	return out
+}
+
+// scripted histories for the defects found while building the model (see findings/C08.md, C09.md)
+func scriptedCases() []*mCase {
+	return []*mCase{
+		// C09: intensity exceeded while other children run -> terminate reason must be "exceeded"
+		{Kind: "ofo", Strategy: 2, Intensity: 1, Period: 5, Sig: []bool{false, false}, Stream: "scripted",
+			Ops: []mOp{{K: "exit", A: 0, R: 10}, {K: "exit", A: 1, R: 10}, {K: "exitsig", A: 0}}},
+		{Kind: "afo", Strategy: 2, Intensity: 1, Period: 5, Sig: []bool{false, false, false}, Stream: "scripted",
+			Ops: []mOp{{K: "exit", A: 0, R: 10}, {K: "exitsig", A: 0}, {K: "exitsig", A: 0}, {K: "exit", A: 0, R: 11}, {K: "exitsig", A: 0}, {K: "exitsig", A: 0}}},
+		// C08: keeporder, a sibling dies while the supervisor stops the children one by one
+		{Kind: "afo", Strategy: 2, Keep: true, Intensity: 3, Period: 5, Sig: []bool{false, false, false, false}, Stream: "scripted",
+			Ops: []mOp{{K: "exit", A: 0, R: 10}, {K: "exit", A: 0, R: 10}, {K: "exitsig", A: 0}, {K: "exitsig", A: 0}}},
+		// C08: rest-for-one without keeporder, a child in front of the range dies during the restart
+		{Kind: "rfo", Strategy: 2, Intensity: 3, Period: 5, Sig: []bool{false, false, false, false}, Stream: "scripted",
+			Ops: []mOp{{K: "exit", A: 2, R: 10}, {K: "exit", A: 0, R: 10}, {K: "exitsig", A: 0}, {K: "exitsig", A: 0}}},
+		// C08: last child disabled, then a restart: the machine must leave the starting mode
+		{Kind: "afo", Strategy: 2, Intensity: 3, Period: 5, Sig: []bool{false, false, false}, Stream: "scripted",
+			Ops: []mOp{{K: "disable", A: 2}, {K: "exitsig", A: 0}, {K: "exit", A: 0, R: 10}, {K: "exitsig", A: 0}, {K: "enable", A: 2}}},
+		// C09/C10: SOFO, a disabled spec's pid must not stay in the wait set forever
+		{Kind: "sofo", Strategy: 2, Intensity: 1, Period: 5, Sig: []bool{false, false}, Stream: "scripted",
+			Ops: []mOp{{K: "start", A: 0}, {K: "start", A: 1}, {K: "disable", A: 0}, {K: "exitsig", A: 0}, {K: "exit", A: 0, R: 10}, {K: "exit", A: 0, R: 10}, {K: "exitsig", A: 0}}},
+	}
+}
+
+func runMachine(n int, out string, replay string) {
+	o := util.NewOut("sup.machine")
+	var cases []*mCase
+	if replay != "" {
+		b, err := os.ReadFile(replay)
+		if err != nil {
+			panic(err)
+		}
+		var rp struct {
+			Case mCase `json:"case"`
+		}
+		if err := json.Unmarshal(b, &rp); err != nil {
+			panic(err)
+		}
+		cases = append(cases, &rp.Case)
+	} else {
+		cases = append(cases, scriptedCases()...)
+		r := util.Rng(2)
+		nex := n / 3
+		depth := 3
+		if os.Getenv("VERIF_TIER") == "thorough" {
+			depth = 4
+		}
+		cases = append(cases, exhaustiveCases(3, depth, nex, util.Rng(3))...)
+		for i := 0; len(cases) < n; i++ {
+			cases = append(cases, genMachineCase(r, i))
+		}
+	}
+	for _, c := range cases {
+		term := execMachineCase(c, o.Stats)
+		o.Add(term, c)
+		o.Stats["stream:"+c.Stream]++
+		o.Stats["kind:"+c.Kind]++
+		o.Stats[fmt.Sprintf("strategy:%d", c.Strategy)]++
+		o.Stats[fmt.Sprintf("children:%d", len(c.Sig))]++
+		if strings.Contains(term, "RPanic") {
+			o.Stats["cases-with-panic"]++
+		}
+	}
+	o.Write(out)
+}
